@@ -541,9 +541,6 @@ func genCut(t *rapid.T, c *sortCase) {
 	if avoidKnownPercentOver100 && cut.Percent && cut.P100 > 10000 && rem > 100 {
 		cut.P100 = 10000
 	}
-	if cut.Form != "none" && cut.Form != "" {
-		cut.ViaVars = chance(t, "viaVars", 15)
-	}
 	c.Cut = cut
 }
 
@@ -564,6 +561,10 @@ func genCutCase(t *rapid.T) sortCase {
 		genKeys(t, &c, 50)
 	}
 	genCut(t, &c)
+	// only the cut sub-check declares the variables (checkCut); the nested and datetime_format sub-checks share genCut
+	if c.Cut.Form != "none" && c.Cut.Form != "" {
+		c.Cut.ViaVars = chance(t, "viaVars", 15)
+	}
 	return c
 }
 
